@@ -20,7 +20,7 @@ RUNTIME = {
             ('random', 'nesting', 6000, 'trace'), ('random', 'windows', 3000, 'trace'),
             ('random', 'forever', 2000, 'trace'), ('sweep', 'tie', 4, 'trace'),
             ('suite',)],
-    'C02': [('random', 'vwin', 4000, 'trace'), ('random', 'big', 2500, 'trace'), ('random', 'ties', 14000, 'trace'), ('random', 'windows', 5000, 'trace'),
+    'C02': [('sweep', 'gap', 6, 'trace'), ('random', 'vwin', 4000, 'trace'), ('random', 'big', 2500, 'trace'), ('random', 'ties', 14000, 'trace'), ('random', 'windows', 5000, 'trace'),
             ('random', 'forever', 5000, 'trace'), ('random', 'generic', 5000, 'trace'),
             ('sweep', 'tie', 4, 'trace'), ('sweep', 'window', 2, 'trace'),
             ('suite',)],
@@ -31,10 +31,10 @@ RUNTIME = {
     'C04': [('sweep', 'cube', 4, 'trace'), ('random', 'abort', 12000, 'trace'),
             ('random', 'generic', 6000, 'trace'), ('random', 'nesting', 6000, 'trace'),
             ('random', 'ties', 4000, 'trace')],
-    'C05': [('random', 'vwin', 2000, 'trace'), ('random', 'big', 1500, 'trace'), ('random', 'abort', 16000, 'trace'), ('random', 'windows', 4000, 'trace'),
+    'C05': [('sweep', 'gap', 6, 'trace'), ('random', 'vwin', 2000, 'trace'), ('random', 'big', 1500, 'trace'), ('random', 'abort', 16000, 'trace'), ('random', 'windows', 4000, 'trace'),
             ('random', 'nesting', 5000, 'trace'), ('sweep', 'phase', 2, 'trace'),
             ('sweep', 'cube', 2, 'trace')],
-    'C06': [('random', 'vwin', 2000, 'c06'), ('random', 'windows', 8000, 'c06'), ('random', 'generic', 5000, 'c06'),
+    'C06': [('sweep', 'gap', 6, 'c06'), ('random', 'vwin', 2000, 'c06'), ('random', 'windows', 8000, 'c06'), ('random', 'generic', 5000, 'c06'),
             ('random', 'nesting', 5000, 'c06'), ('random', 'ties', 3000, 'c06'),
             ('sweep', 'window', 2, 'c06')],
     'C07': [('random', 'big', 2500, 'trace'), ('random', 'windows', 15000, 'trace'), ('random', 'nesting', 5000, 'trace'),
@@ -50,11 +50,11 @@ RUNTIME = {
     'C10': [('random', 'nesting', 10000, 'trace'), ('sweep', 'cube', 3, 'trace'),
             ('random', 'nesting', 8000, 'twin'), ('random', 'generic', 4000, 'twin'),
             ('random', 'ties', 3000, 'twin')],
-    'C11': [('random', 'vwin', 2000, 'trace'), ('sweep', 'extcancel', 2, 'trace'), ('random', 'big', 1500, 'trace'), ('sweep', 'phase', 3, 'trace'), ('sweep', 'phasew', 3, 'trace'),
+    'C11': [('sweep', 'gap', 6, 'trace'), ('random', 'vwin', 2000, 'trace'), ('sweep', 'extcancel', 2, 'trace'), ('random', 'big', 1500, 'trace'), ('sweep', 'phase', 3, 'trace'), ('sweep', 'phasew', 3, 'trace'),
             ('random', 'nesting', 8000, 'trace'), ('random', 'abort', 6000, 'trace'),
             ('random', 'generic', 5000, 'trace'), ('random', 'shutdown', 4000, 'trace'),
             ('suite',)],
-    'C12': [('random', 'vwin', 4000, 'trace'), ('random', 'big', 2500, 'trace'), ('random', 'ties', 12000, 'trace'), ('random', 'windows', 10000, 'trace'),
+    'C12': [('sweep', 'gap', 6, 'trace'), ('random', 'vwin', 4000, 'trace'), ('random', 'big', 2500, 'trace'), ('random', 'ties', 12000, 'trace'), ('random', 'windows', 10000, 'trace'),
             ('random', 'generic', 4000, 'trace'), ('random', 'forever', 3000, 'trace'),
             ('sweep', 'tie', 4, 'trace'), ('sweep', 'window', 2, 'trace'),
             ('random', 'ties', 4000, 'perm'), ('random', 'nesting', 3000, 'perm')],
@@ -62,7 +62,7 @@ RUNTIME = {
             ('random', 'nesting', 5000, 'trace'), ('random', 'abort', 4000, 'trace'),
             ('random', 'generic', 3000, 'trace'), ('sweep', 'phasew', 2, 'trace'),
             ('suite',)],
-    'C14': [('random', 'vwin', 3000, 'poll'), ('random', 'generic', 6000, 'poll'), ('random', 'windows', 6000, 'poll'),
+    'C14': [('sweep', 'gap', 6, 'poll'), ('random', 'vwin', 3000, 'poll'), ('random', 'generic', 6000, 'poll'), ('random', 'windows', 6000, 'poll'),
             ('random', 'abort', 4000, 'poll'), ('random', 'nesting', 4000, 'poll'),
             ('random', 'forever', 3000, 'poll'), ('sweep', 'window', 1, 'poll')],
 }
